@@ -2,12 +2,13 @@
    Proved for the DECODER, all strings / tables / flags, no side condition (proofs/AttrFacts.v):
    decoder(x, attribute=False) is decoder(x, attribute=True) with the attribution erased - same
    outcome (value or exception class), same string, same output indices and tokens.
-   Not theorems (judged per input on every run): the same for the encoder, and truthfulness of the
-   entries (independent tokenisations in the harness; exact lists compared with the model). *)
+   Truthfulness of the decoder's entries is a theorem too (C17_decoder_attribution_truthful).
+   Not theorems (judged per input on every run): the encoder side (independent tokenisations in the
+   harness; exact lists compared with the model). *)
 From Coq Require Import String List ZArith NArith Bool.
 Import ListNotations.
 From Selfies Require Import Base Generated Atoms Grammar Decoder PySet Matching Smiles Kekulize Encoder
-  IndexSpec IndexCode Reader DocGrammar RoundTrip EncoderFacts PureFacts AttrFacts.
+  IndexSpec IndexCode Reader DocGrammar RoundTrip EncoderFacts PureFacts AttrFacts AttrOut AttrIn AttrFinal.
 Local Open Scope string_scope.
 
 Theorem C17_offsets_partial :
@@ -42,6 +43,23 @@ Proof.
   destruct (decoder T s compat true) as [[o mp]|e']; cbn in H; rewrite H; split; intro X; congruence.
 Qed.
 
+(* truthfulness, decoder side, for every table, string and flag (proofs/AttrOut.v, AttrIn.v, AttrFinal.v):
+   every entry's output token is found in the output string ending at the reported character index; every
+   contributing input token is the symbol at the reported position of the input (counting the symbols that take part
+   in the derivation: [nop] and '.' are not counted); and every entry is either a bond token or an atom token whose
+   attribution is the branch symbols enclosing it followed by the atom symbol that created that atom *)
+Theorem C17_decoder_attribution_truthful : forall T s compat attribute out maps,
+  decoder T s compat attribute = Ok (out, maps) ->
+  forall a, In a maps ->
+    ends_at out (am_index a) (am_token a) /\
+    match am_attr a with
+    | None => True
+    | Some l => Forall (fun e => nth_error (input_symbols s compat) (fst e) = Some (snd e)) l
+    end /\
+    ((exists at_, atom_to_smiles at_ true = Ok (am_token a) /\ atom_attr T (am_attr a) at_) \/
+     (exists o st, bond_to_smiles o st = Ok (am_token a))).
+Proof. exact decoder_attribution_truthful. Qed.
+
 (* non-vacuity: an attributed decode with branches and a ring *)
 Example C17_example :
   match decoder default_constraints (lit "[C][=C][Branch1][C][O][C][Ring1][Branch1]") false true with
@@ -53,3 +71,4 @@ Print Assumptions C17_offsets_partial.
 Print Assumptions C17_decoder_observation_only_partial.
 Print Assumptions C17_decoder_same_string.
 Print Assumptions C17_decoder_same_error.
+Print Assumptions C17_decoder_attribution_truthful.
